@@ -90,31 +90,51 @@ def r1_constrain(ctx):
 
 
 def r3_driver(ctx):
+    """the boundary driver on the REAL population stack (another population underneath), the stack and the generator owned by
+    the current or the enclosing scope: every solution of the TOP population is repaired exactly once, the repaired
+    individuals carry no objective value any more, nothing else on the stack is touched, and stack and generator stay in the
+    scope that owns them"""
+    import statemodel
+    from c04 import StackModel
     F = ctx.facts
     fn = F.fn("mahf::components::boundary::boundary_constraint")
+    POP = statemodel.POPULATIONS
     bad = []
-    for size in range(0, 4):
-        seen = []
+    for owner in (0, 1):
+        for size in range(0, 4):
+            seen = []
 
-        def constrain(interp, env, f, args):
-            s = load(interp, env, args[1])
-            seen.append(getattr(s, "tag", repr(s)))
-            return Agg("tuple", None, None, [])
-        table = {"mahf::state::State::populations_mut": Sym("populations"), "mahf::state::State::random_mut": Sym("rng"),
-                 "mahf::state::common::Populations::current_mut": Vec("cur", borrowed=True), BC + "::constrain": constrain}
-        it = install(Interp(fn.body, chain(mk_oracle(table), coll_oracle, std_oracle), [Sym("component"), Sym("problem"), Sym("state")], facts=F, inline=INL, max_visits=12))
-        # members 0, 2 carry an objective value from an earlier evaluation, member 1 has none (freshly modified)
-        it.init_state = {"heap": {"cur": tuple(c07.ind(i) if i != 1 else Agg("adt", c07.IND, "Individual", [Sym("s:1"), NONE]) for i in range(size))}, "next_vec": 0}
-        for p in it.run():
-            if p.end != "return" or not (isinstance(p.ret, Agg) and p.ret.variant == "Ok"):
-                bad.append((size, "%s %s" % (p.end, p.ret)))
-                continue
-            want = ["s:%d" % i for i in range(size)]
-            if sorted(seen) != want:
-                bad.append((size, "repairs solutions %s, expected every member once: %s" % (seen, want)))
-            stale = [c07.otag(x) for x in p.mstate["heap"].get("cur", ()) if isinstance(x.fields[1], Agg) and x.fields[1].variant == "Some"]
-            if stale:
-                bad.append((size, "leaves objective values on repaired individuals: %s" % stale))
+            def constrain(interp, env, f, args):
+                s = load(interp, env, args[1])
+                seen.append(getattr(s, "tag", repr(s)))
+                return Agg("tuple", None, None, [])
+            cells, popsym, sf = statemodel.stack_and_rng(F, owner)
+            store = statemodel.Store(F, levels=2, auto=statemodel.by_prefix(F, cells))
+            table = {BC + "::constrain": constrain}
+            it = install(Interp(fn.body, chain(mk_oracle(table), store, StackModel(sf), coll_oracle, std_oracle), [Sym("component"), Sym("problem"), Sym("state")], facts=F,
+                                inline=lambda k: k.startswith(POP + "::") or INL(k) or statemodel.inline(k), max_visits=12))
+            # members 0, 2 carry an objective value from an earlier evaluation, member 1 has none (freshly modified)
+            it.init_state = {"heap": {"cur": tuple(c07.ind(i) if i != 1 else Agg("adt", c07.IND, "Individual", [Sym("s:1"), NONE]) for i in range(size)), "below": (c07.ind("b"),)},
+                             "next_vec": 0, "stack": (Vec("below"), Vec("cur"))}
+            store.install(it)
+            where = "%d%s" % (size, ", the stack owned by the enclosing scope" if owner else "")
+            for p in it.run():
+                if p.end != "return" or not (isinstance(p.ret, Agg) and p.ret.variant == "Ok"):
+                    bad.append((where, "%s %s" % (p.end, p.ret)))
+                    continue
+                held = {ty.split("<")[0].split("::")[-1]: store.holders(p, ty) for ty in store.types()}
+                if any(ls != [owner] for ls in held.values()):
+                    bad.append((where, "leaves %s held by scope level(s) %s; they belong to scope level %d and stay there" % (sorted(held), sorted(held.values()), owner)))
+                    continue
+                want = ["s:%d" % i for i in range(size)]
+                if sorted(seen) != want:
+                    bad.append((where, "repairs solutions %s, expected every member once: %s" % (seen, want)))
+                names = [getattr(x, "vid", repr(x)) for x in p.mstate.get("stack", ())]
+                if p.mstate.get("unmodelled") or names != ["below", "cur"] or [c07.otag(x) for x in p.mstate["heap"].get("below", ())] != ["o:b"]:
+                    bad.append((where, "leaves the stack as %s / changes the population underneath" % (p.mstate.get("unmodelled") or names)))
+                stale = [c07.otag(x) for x in p.mstate["heap"].get("cur", ()) if isinstance(x.fields[1], Agg) and x.fields[1].variant == "Some"]
+                if stale:
+                    bad.append((where, "leaves objective values on repaired individuals: %s" % stale))
     ctx.check(not bad, "C14.R3", fn.key, "every-solution-once", "population of %s: the driver %s" % (bad[0] if bad else ("", "")), loc=fn.loc())
 
 
@@ -128,20 +148,29 @@ def r4_initialization(ctx):
     POP = "mahf::state::common::Populations"
     sf = F.field_index(POP, "stack")
     bad = []
-    for below in ((), ("b0",)):
+    import statemodel
+    for below, owner in (((), 0), (("b0",), 0), (("b0",), 1), ((), 1)):
         for size in range(0, 4):
             def initialize(interp, env, f, args, size=size):
                 return new_vec(interp, [Sym("s:%d" % i) for i in range(size)])
-            popsym = Sym("populations", {sf: Sym("stack")})
-            table = {"mahf::state::State::populations_mut": popsym, "mahf::state::State::populations": popsym, "mahf::state::State::random_mut": Sym("rng"),
-                     "mahf::components::initialization::Initialization::initialize": initialize}
-            it = install(Interp(fn.body, chain(mk_oracle(table), StackModel(sf), coll_oracle, std_oracle), [Sym("component"), Sym("problem"), Sym("state")], facts=F,
-                                inline=lambda k: k.startswith(POP + "::") or INL(k), max_visits=12))
+            # the stack and the generator are cells of the typed store, owned by the scope the driver runs in (0) or by the
+            # enclosing scope (1: an initialisation inside a Scope fills its surroundings' stack)
+            cells, popsym, _sf = statemodel.stack_and_rng(F, owner)
+            store = statemodel.Store(F, levels=2, auto=statemodel.by_prefix(F, cells))
+            table = {"mahf::components::initialization::Initialization::initialize": initialize}
+            it = install(Interp(fn.body, chain(mk_oracle(table), store, StackModel(sf), coll_oracle, std_oracle), [Sym("component"), Sym("problem"), Sym("state")], facts=F,
+                                inline=lambda k: k.startswith(POP + "::") or INL(k) or statemodel.inline(k), max_visits=12))
             it.init_state = {"stack": tuple(Vec(x) for x in below), "heap": {x: (c07.ind(x),) for x in below}, "next_vec": 0}
+            store.install(it)
             for p in it.run():
                 st = list(p.mstate.get("stack", ()))
                 names = [getattr(x, "vid", repr(x)) for x in st]
-                ctxs = "%d, %d population(s) already on the stack" % (size, len(below))
+                ctxs = "%d, %d population(s) already on the stack%s" % (size, len(below), ", the stack owned by the enclosing scope" if owner else "")
+                held = {ty.split("<")[0].split("::")[-1]: store.holders(p, ty) for ty in store.types()}
+                if any(ls != [owner] for ls in held.values()):
+                    bad.append((ctxs, "leaves %s held by scope level(s) %s; the stack and the generator belong to scope level %d (0 = the scope the driver runs in, 1 = the enclosing one): a stack of its own hides the new population from the heuristic" % (
+                        sorted(held), sorted(held.values()), owner)))
+                    continue
                 if p.mstate.get("unmodelled"):
                     bad.append((ctxs, "applies %s to the stack" % (p.mstate["unmodelled"],)))
                     continue
